@@ -112,8 +112,13 @@ def run(chk, binary):
                 own = rng.choice(["2", "3", "4"])
                 X = X[:2] + own + X[2:] if X.startswith('"') else own + X
                 cls = cls + "+own-count"
-        dot_keys = pre + [X] + btw + [cnt + "."] * chain
-        typed_keys = pre + [X] + btw + [Xc] * chain
+        X1 = X
+        if cls in ("x", "d", "dd", "r", "~", "case") and '"' not in X and not X.endswith(" ") and "|" not in X and rng.random() < 0.12:      # (an ex line loses trailing blanks; | ends it)
+            # the change is typed through :normal! - it is the last change all the same
+            X1 = ":normal! " + X + "<CR>"
+            cls = cls + "+via-normal"
+        dot_keys = pre + [X1] + btw + [cnt + "."] * chain
+        typed_keys = pre + [X1] + btw + [Xc] * chain
         reqs.append({"op": "keys", "text": text, "cursor": start, "keys": dot_keys})
         reqs.append({"op": "keys", "text": text, "cursor": start, "keys": typed_keys})
         meta.append((text, start, cls, X, btw, chain, cnt, dot_keys, typed_keys))
